@@ -28,6 +28,7 @@ pub fn check(tier: Tier) -> Check {
         parts.push(Part::new("C06/interleave", json!({"depth": d}), k, tier.pick(30, 400)));
     }
     Check {
+        also_rel: false,
         property: "C06",
         level: "model_checking",
         rule: "all event sequences over publishes (QoS 0/1/2 x retain x 2 topics/payloads), every legal PUBACK/PUBREC/PUBCOMP reason code, a ping interleaved, delayed polls of the publish future (also between the QoS 2 phases) and partial/pending writes as deviations; non-trivial = a QoS>0 handshake was completed or failed".into(),
